@@ -16,7 +16,8 @@ from vcheck import coq_list
 HEADER = "From V.C08 Require Import Model Spec Run.\nOpen Scope string_scope.\n"
 
 KIND = {1: "instanceof", 2: "instanceof-this", 3: "param", 4: "param-this", 5: "catch",
-        6: "call", 7: "self", 8: "static", 9: "parent", 10: "like"}
+        6: "call", 7: "self", 8: "static", 9: "parent", 10: "like",
+        11: "parent-static", 12: "parent-self", 13: "parent-parent"}
 
 
 # ------------------------------------------------------------------ hierarchy -> script
@@ -69,7 +70,8 @@ def s_script(h, probes):
     return "\n".join(out) + "\n"
 
 
-BODIES = {"ks": "return self::s();", "kt": "return static::s();", "kp": "return parent::f();", "kq": "return parent::s();"}
+BODIES = {"ks": "return self::s();", "kt": "return static::s();", "kp": "return parent::f();", "kq": "return parent::s();",
+          "kr": "return parent::kt();", "kv": "return parent::ks();", "kw": "return parent::kp();"}
 
 
 def d_script(h, probes):
@@ -137,6 +139,9 @@ def coq_probe(p):
         return "PParent %s %s %s" % (q(p[1]), q(p[2]), q(p[3]))
     if k == "like":
         return "PLike %s %s" % (q(p[1]), q(p[2]))
+    if k in ("parent-static", "parent-self", "parent-parent"):
+        return "%s %s %s %s %s" % ({"parent-static": "PParentStatic", "parent-self": "PParentSelf", "parent-parent": "PParentParent"}[k],
+                                   q(p[1]), q(p[2]), q(p[3]), q(p[4]))
     raise ValueError(k)
 
 
@@ -213,6 +218,12 @@ def dispatch_probes(h, like_targets):
             ps.append(("parent", r, "kp", "f"))
         if "kq" in names:
             ps.append(("parent", r, "kq", "s"))
+        if "kr" in names:
+            ps.append(("parent-static", r, "kr", "kt", "s"))
+        if "kv" in names:
+            ps.append(("parent-self", r, "kv", "ks", "s"))
+        if "kw" in names:
+            ps.append(("parent-parent", r, "kw", "kp", "f"))
         for t in like_targets:
             ps.append(("like", r, t))
     return ps
@@ -236,7 +247,9 @@ def enum_dispatch():
                     if par[k] is None:
                         ms += [("ks", False, 0), ("kt", False, 0)]
                     else:
-                        ms += [("kp", False, 0), ("kq", False, 0)]
+                        ms += [("kp", False, 0), ("kq", False, 0), ("kr", False, 0), ("kv", False, 0)]
+                        if par[par[k]] is not None:
+                            ms.append(("kw", False, 0))
                     classes.append({"name": "C%d" % (k + 1), "extends": ("C%d" % (par[k] + 1)) if par[k] is not None else None,
                                     "impls": [], "methods": ms})
                 h = {"classes": classes, "ifaces": [{"name": "M1", "extends": [], "methods": [("f", 1)]}]}
@@ -273,7 +286,7 @@ def seeded_hierarchy(rng, with_methods):
                 if rng.random() < 0.4:
                     ms.append((mname, False, 0))
             if par is not None:
-                for mname in ("kp", "kq"):
+                for mname in ("kp", "kq", "kr", "kv"):
                     if rng.random() < 0.5:
                         ms.append((mname, False, 0))
             rng.shuffle(ms)
